@@ -103,6 +103,9 @@ type SimNode struct {
 	knownAtCrash    map[uint32]int
 	lastKnown       map[uint32]int
 	peersAtLeave    []*peers.Peer
+	ownScanned      int
+	ownPayload      map[string]int
+	sigChecked      map[string]bool
 }
 
 func (n *SimNode) running() bool { return n.started && !n.crashed && !n.dead && !n.byz && n.node != nil }
@@ -118,6 +121,7 @@ type task struct {
 	id   int
 	kind string
 	n    *SimNode
+	via  *SimNode
 	done bool
 	err  error
 }
@@ -163,12 +167,17 @@ type Cluster struct {
 	vs             *VSModel
 	forksReported  int
 	shadowSeq      int
-	fairCyclesUsed int
+	fairBoundV      int
+	capped          bool
+	fairCount       int // fair cycles executed
+	fairQuiescentAt int // fair cycle after which the network was first found quiescent (0: never)
 	storePointHook func(n *SimNode, kind, phase string)
 	stepHook       func(s *Step)
 	blockHook      func(b *hg.Block)
 	finalHook      func()
 	byzHandler     func(s *Step)
+	emitted        map[string]string
+	emitScanned    int
 }
 
 func clonePeers(ps []*peers.Peer) []*peers.Peer {
@@ -220,6 +229,7 @@ func newCluster(t *testing.T, cfg *RunConfig, seed uint64) *Cluster {
 		ledger:    newLedger(),
 		stats:     newStats(),
 		trace:     newTraceHasher(),
+		emitted:   map[string]string{},
 		start:     time.Now(),
 		policy:    cfg.Policy,
 	}
@@ -364,6 +374,9 @@ func (c *Cluster) startNode(n *SimNode, bootstrap bool) error {
 	if err := n.node.Init(); err != nil {
 		return err
 	}
+	n.ownScanned = n.core().Seq()
+	n.ownPayload = map[string]int{}
+	n.sigChecked = map[string]bool{}
 	return nil
 }
 
@@ -417,6 +430,7 @@ func (c *Cluster) onDeliver(n *SimNode, d *Delivery) {
 		c.chainBody[idx] = &full
 		c.onCanonicalBlock(&full)
 	}
+	c.checkC18(n, d)
 }
 
 func (c *Cluster) onRestore(n *SimNode, snapshot []byte) {}
